@@ -320,7 +320,7 @@ def sim_part(ctx, d):
         batches = [(0, 36000, 400), (3000000, 4000, 400), (1000000, 600, 3000), (2000000, 10, 10000)]
     tot_sched = tot_events = nontriv = 0
     hashes = set()
-    agg = dict(elections=0, commits=0, truncs=0, restarts=0, compactions=0, snapshots=0)
+    agg = dict(elections=0, commits=0, truncs=0, restarts=0, compactions=0, snapshots=0, unstabledeliveries=0)
     maxterm = maxcommit = 0
     samples = []
     viol = None
@@ -379,7 +379,7 @@ def sim_part(ctx, d):
                 pass
     stats = dict(sim_schedules=tot_sched, sim_events=tot_events, sim_distinct_nontrivial=nontriv,
                  sim_distinct=len(hashes), sim_elections=agg["elections"], sim_commit_advances=agg["commits"],
-                 sim_log_truncations=agg["truncs"], sim_restarts=agg["restarts"], sim_compactions=agg["compactions"], sim_snapshots_delivered=agg["snapshots"], sim_max_term=maxterm,
+                 sim_log_truncations=agg["truncs"], sim_restarts=agg["restarts"], sim_compactions=agg["compactions"], sim_snapshots_delivered=agg["snapshots"], sim_deliveries_with_unstable_proposal=agg["unstabledeliveries"], sim_max_term=maxterm,
                  sim_max_commit=maxcommit, sim_samples=samples,
                  sim_scope="; ".join("%d schedules x %d events" % (c, n) for _, c, n in batches))
     return stats, viol, None
@@ -646,7 +646,7 @@ def run(ctx):
         evaluations=stats.get("quorum_cases", 0) + stats.get("sim_events", 0) + stats.get("cc_validated_events", 0) + stats.get("pv_validated_events", 0),
         distinct_nontrivial=stats.get("quorum_distinct_nontrivial", 0) + stats.get("sim_distinct_nontrivial", 0),
         rule="(D) " + stats.get("quorum_scope", "-") + "; a quorum case is non-trivial when its first config is non-empty and the four answers are not the all-default tuple; distinct = distinct case lines. "
-             "(V) " + stats.get("sim_scope", "-") + " on 1-5 real RawNodes (seeded adversarial scheduler: deliver/duplicate/drop/reorder, partitions, tick, propose, campaign, crash-restart, crash before persisting); every event is one evaluation, checked by the extracted check_step (exact equality of term/vote/commit/role/lead/log with the model, replies present, other messages allowed by emit_okb) plus the extracted safety predicates; a schedule is non-trivial when a leader was elected and an entry beyond the leader's empty entry was committed; distinct = distinct md5 of the event sequence",
+             "(V) " + stats.get("sim_scope", "-") + " on 1-5 real RawNodes (seeded adversarial scheduler: deliver/duplicate/drop/reorder, partitions, tick, propose, campaign, crash-restart, crash before persisting); every event is one evaluation, checked by the extracted check_step (exact equality of term/vote/commit/role/lead/log with the model, replies present, other messages allowed by emit_okb: in particular every MsgApp must carry the CONTIGUOUS slice prevIndex+1.. of the sender's log - C15_msgapp_is_contiguous_log_slice; an entry at a wrong index is rendered as an impossible payload); a third of the schedules have MIXED ENTRY SIZES (a third of the entries padded to 40-110 bytes) with MaxSizePerMsg = MaxCommittedSizePerReady = 24-93 bytes and 1-3 messages in flight, and in those a third of the deliveries to a leader are PD events: a proposal is handed in and the message stepped BEFORE the Ready loop runs (unstable tail while resends are built; validated as two model steps, one observation); the harness itself enforces the Ready contract (Entries and CommittedEntries carry consecutive indexes, the applied cursor never jumps) plus the extracted safety predicates; a schedule is non-trivial when a leader was elected and an entry beyond the leader's empty entry was committed; distinct = distinct md5 of the event sequence",
         samples=stats.get("quorum_samples", ["(none)"]) + stats.get("sim_samples", []),
         exhaustive=False,
         traces_validated_against_impl=stats.get("sim_schedules", 0),
